@@ -202,16 +202,55 @@ func runC19(c *Ctx) {
 	ttWrap := c.Func("texttable", "Wrap")
 	nset := 0
 	p := c.Idx().proverFor(wrap)
+	// the places where Wrap names a decoration: a direct SetDecorationNamed, or a call of a helper of the package
+	// that passes one of its parameters on to SetDecorationNamed
+	type nameEvent struct {
+		at     *ssa.Call // the call in Wrap
+		name   ssa.Value // the name, as a value of Wrap
+		recvOK bool
+	}
+	var events []nameEvent
 	eachInstr(wrap, func(in ssa.Instruction) {
 		call, ok := in.(*ssa.Call)
-		if !ok || call.Call.StaticCallee() != setNamed {
+		if !ok {
 			return
 		}
+		callee := call.Call.StaticCallee()
+		if callee == setNamed {
+			rc, isCall := call.Call.Args[0].(*ssa.Call)
+			events = append(events, nameEvent{call, call.Call.Args[1], isCall && rc.Call.StaticCallee() == ttWrap && rc.Call.Args[0] == ssa.Value(wrap.Params[0])})
+			return
+		}
+		if callee == nil || callee.Blocks == nil || funcPkgPath(callee) != pkgPath("auto") || len(call.Call.Args) != len(callee.Params) {
+			return
+		}
+		eachInstr(callee, func(in2 ssa.Instruction) {
+			c2, ok2 := in2.(*ssa.Call)
+			if !ok2 || c2.Call.StaticCallee() != setNamed {
+				return
+			}
+			actual := func(v ssa.Value) ssa.Value {
+				for k, par := range callee.Params {
+					if v == ssa.Value(par) {
+						return call.Call.Args[k]
+					}
+				}
+				return nil
+			}
+			nm := actual(c2.Call.Args[1])
+			if nm == nil {
+				nm = c2.Call.Args[1] // not a parameter: judged as it stands (a constant, say)
+			}
+			rc, isCall := c2.Call.Args[0].(*ssa.Call)
+			recvOK := isCall && rc.Call.StaticCallee() == ttWrap && actual(rc.Call.Args[0]) == ssa.Value(wrap.Params[0])
+			events = append(events, nameEvent{call, nm, recvOK})
+		})
+	})
+	for _, ev := range events {
+		call := ev.at
 		nset++
-		// receiver is texttable.Wrap(t)
-		rc, isCall := call.Call.Args[0].(*ssa.Call)
-		r.Check("R19.3", FuncName(wrap), fmt.Sprintf("decoration #%d is set on texttable.Wrap(t)", nset), call.Pos(), isCall && rc.Call.StaticCallee() == ttWrap && rc.Call.Args[0] == ssa.Value(wrap.Params[0]), "")
-		for _, v := range phiClosure(call.Call.Args[1]) {
+		r.Check("R19.3", FuncName(wrap), fmt.Sprintf("decoration #%d is set on texttable.Wrap(t)", nset), call.Pos(), ev.recvOK, "")
+		for _, v := range phiClosure(ev.name) {
 			k, rest, lowered, okS := sectionExpr(v, style, 0)
 			switch {
 			case !okS:
@@ -231,7 +270,7 @@ func runC19(c *Ctx) {
 					blk = vi.Block()
 				}
 				for _, cf := range dominatingConds(blk) {
-					if b, isB := cf.Cond.(*ssa.BinOp); isB && b.Op == token.EQL && cf.Val {
+					if b, isB := cf.Cond.(*ssa.BinOp); isB && (b.Op == token.EQL && cf.Val || b.Op == token.NEQ && !cf.Val) {
 						if s1, isS := constString(b.Y); isS && s1 == "texttable" {
 							underTT = true
 						}
@@ -247,7 +286,7 @@ func runC19(c *Ctx) {
 				r.Check("R19.3", FuncName(wrap), fmt.Sprintf("decoration name #%d is section 0 or 1", nset), call.Pos(), false, fmt.Sprintf("section %d", k))
 			}
 		}
-	})
+	}
 	r.Floor("R19.3", "decoration names set from the style", nset, 1)
 
 	// ---- R19.1
